@@ -67,8 +67,10 @@ def check_walkers(idx) -> None:
                "rope.base.pyscopes.FunctionScope._visit_function",
                "rope.base.pyscopes.ComprehensionScope._visit_comprehension"):
         f = idx.need_func(fq)
+        from .common import inline_private_calls
+        fnode = inline_private_calls(idx, f)  # the walk may be a private step of the method (`self._visited_children()`): read in place
         ok = any(isinstance(n, ast.For) and isinstance(n.iter, ast.Call) and call_name(n.iter) == "iter_child_nodes"
-                 and any(call_name(c) == "visit" for c in calls_in(n)) for n in walk_local(f.node))
+                 and any(call_name(c) == "visit" for c in calls_in(n)) for n in walk_local(fnode))
         if not ok:
             raise AnalysisError(f"anchor={fq}: the scope walk is no longer 'for child in ast.iter_child_nodes(node): visitor.visit(child)'")
 
@@ -509,10 +511,16 @@ def region_interval_rule(ctx, res, rule: str) -> None:
     f = idx.need_func("rope.base.pyscopes.Scope.in_region")
     p = param_names(f.node)[1] if len(param_names(f.node)) > 1 else None
     n = 0
+    # `start, end = self.get_region()` names the two ends: a name bound by unpacking stands for `<value>[i]`
+    unpacked = {}
+    for a in walk_local(f.node):
+        if isinstance(a, ast.Assign) and len(a.targets) == 1 and isinstance(a.targets[0], ast.Tuple) and all(isinstance(e, ast.Name) for e in a.targets[0].elts):
+            for i, e in enumerate(a.targets[0].elts):
+                unpacked[e.id] = ast.copy_location(ast.Subscript(value=a.value, slice=ast.Constant(value=i), ctx=ast.Load()), e)
     for x in walk_local(f.node):
         if not isinstance(x, ast.Compare):
             continue
-        terms = [x.left, *x.comparators]
+        terms = [unpacked.get(t.id, t) if isinstance(t, ast.Name) and t.id != p else t for t in [x.left, *x.comparators]]
         for i, op in enumerate(x.ops):
             l, r = terms[i], terms[i + 1]
             lower = None
@@ -752,11 +760,22 @@ def nonlocal_is_searched_outwards_rule(ctx, res, rule: str) -> None:
             continue
         seen.add(m.qualname + "#c")
         node = common.inlined(idx, m)
-        skips = any(isinstance(lp, (ast.While, ast.If)) and any(isinstance(c, ast.Constant) and c.value == "Class" for c in ast.walk(lp.test))
-                    and any(isinstance(a, ast.Assign) and isinstance(a.value, ast.Attribute) and a.value.attr == "parent" for a in ast.walk(lp))
-                    for lp in walk_local(node)) or any(call_name(c) in ("get_enclosing_function_scope", "_enclosing_function") for c in calls_in(node))
+        def steps(lp, kinds) -> bool:
+            return isinstance(lp, kinds) and any(isinstance(c, ast.Constant) and c.value == "Class" for c in ast.walk(lp.test)) \
+                and any(isinstance(a, (ast.Assign, ast.Return)) and isinstance(a.value, ast.Attribute) and a.value.attr == "parent" for a in ast.walk(lp))
+
+        # ALL class bodies in between (`class A: class B: def m(self): nonlocal x`): a loop -- in the handler or in the helper it calls --
+        # or a helper that calls itself on the parent; a single `if` steps over one
+        bodies = [node] + [g.node for g in idx.functions.values() if g.unit is m.unit and g.cls is None and g.parent is None
+                           and any(isinstance(c.func, ast.Name) and c.func.id == g.name for c in calls_in(m.node))]
+        skips = any(steps(lp, (ast.While,)) for b in bodies for lp in walk_local(b)) \
+            or any(steps(lp, (ast.If,)) and any(isinstance(c.func, ast.Name) and c.func.id == getattr(b, "name", None) for c in calls_in(lp)) for b in bodies[1:] for lp in walk_local(b)) \
+            or any(call_name(c) in ("get_enclosing_function_scope", "_enclosing_function") for c in calls_in(node))
+        once = not skips and any(steps(lp, (ast.If,)) for b in bodies for lp in walk_local(b))
         res.add(rule, f"{m.cls.name}._Nonlocal|class-bodies-are-stepped-over", skips, m.where,
                 "the search for the binding starts past the class scopes around the function" if skips else
+                "the search for the binding of a nonlocal name steps over ONE class body only (an `if` where a loop is needed): in `def outer(): x = 1; class A: x = 'attr'; class B: "
+                "def m(self): nonlocal x` the search starts in A's body and files A's attribute under m's `x`" if once else
                 "the search for the binding of a nonlocal name starts in the scope around the function even when that is a CLASS body: in `def outer(): x = 1; class K: x = 'attr'; "
                 "def m(self): nonlocal x` the class attribute is filed under m's `x` -- Rename of outer's `x` leaves `nonlocal x` behind (SyntaxError: no binding for nonlocal "
                 "'x' found), and lookup('x') from m disagrees with the interpreter's symbol table", function=m.qualname)
